@@ -8,8 +8,10 @@ import (
 	"math/rand/v2"
 	"net"
 	"net/netip"
+	"runtime"
 	"strconv"
 	"strings"
+	"sync"
 
 	"github.com/AdguardTeam/golibs/netutil"
 
@@ -21,6 +23,7 @@ func init() {
 	vh.Register("c05", "replay-names", replayNames)
 	vh.Register("c05", "record", record)
 	vh.Register("c05", "probe", probe)
+	vh.Register("c05", "stress", stress)
 }
 
 const (
@@ -159,12 +162,22 @@ func check(res *vh.Result, fn, s string, want c04.Res) bool {
 // ------------------------------------------------------------ replay
 
 func replayNames(args []string) error {
-	if len(args) != 2 {
-		return fmt.Errorf("usage: replay-names <vectors> <result>")
+	if len(args) != 2 && len(args) != 3 {
+		return fmt.Errorf("usage: replay-names <vectors> <result> [<stress-units-out>]")
 	}
 	res, err := vh.NewResult(args[1])
 	if err != nil {
 		return err
+	}
+	// Candidates for the concurrent phase (vh c05 stress): mixed-case names
+	// with a non-trivial predicted prefix, and mixed-case non-ARPA names.
+	var sample *vh.Trace
+	nAcc, nPlain := 0, 0
+	if len(args) == 3 {
+		if sample, err = vh.NewTrace(args[2]); err != nil {
+			return err
+		}
+		defer sample.Close()
 	}
 	n, accP, accE, domBad := 0, 0, 0, 0
 	var specBugs []string
@@ -185,6 +198,18 @@ func replayNames(args []string) error {
 		dom := domainOK(s)
 		if !dom {
 			domBad++
+		}
+		if sample != nil && v.ASCII && v.Dom && dom && hasUpperASCII(s) {
+			switch {
+			case v.Pfx.Ok && v.Pfx.Bits > 0:
+				if nAcc++; nAcc%3 == 0 && nAcc < 9000 {
+					sample.Emit(json.RawMessage(raw))
+				}
+			case !v.Pfx.Ok && !v.Ext.Ok && !v.IP.Ok:
+				if nPlain++; nPlain <= 64 {
+					sample.Emit(json.RawMessage(raw))
+				}
+			}
 		}
 		// The reference decides domain validity; the model in Arpa.tla is a
 		// third voice for ASCII names and must agree with it.
@@ -374,6 +399,174 @@ func record(args []string) error {
 	return res.Close(map[string]any{"cases": total, "calls": calls, "events": tr.N,
 		"edited_prefix_accepts": accP, "edited_extract_accepts": accE, "distinct_nontrivial": dd.N(),
 		"subst_inputs": nSubst, "subst_accepts": substAcc})
+}
+
+// ------------------------------------------------------------ stress (history + concurrency)
+
+// decUnit is one name vector of ArpaNames.tla with its three predictions.
+type decUnit struct {
+	s            string
+	ip, pfx, ext c04.Res
+}
+
+func hasUpperASCII(s string) bool {
+	for i := 0; i < len(s); i++ {
+		if s[i] >= 'A' && s[i] <= 'Z' {
+			return true
+		}
+	}
+	return false
+}
+
+// checkUnit runs the three decoders on one name and compares every result
+// with the specification's prediction for THAT name.
+func checkUnit(u decUnit, how string) *[2]string {
+	for _, c := range []struct {
+		fn   string
+		want c04.Res
+	}{{fnPrefix, u.pfx}, {fnExtract, u.ext}, {"IPFromReversedAddr", u.ip}} {
+		var got c04.Res
+		var pv any
+		var p bool
+		if c.fn == "IPFromReversedAddr" {
+			got, _, pv, p = c04.CallIP(u.s)
+		} else {
+			got, _, pv, p = call(c.fn, u.s)
+		}
+		if p || !got.Equal(c.want) {
+			return &[2]string{how + " " + c04.Key(c.fn, u.s),
+				fmt.Sprintf("returned %v (panic %v); the specification predicts %v for this argument, whatever was decoded before or is being decoded by other goroutines", got, pv, c.want)}
+		}
+	}
+	return nil
+}
+
+// stress replays the refuting history of ArpaDecState.tla on the real
+// decoders (the orchestrator runs it twice: plain, and built with -race).
+// Units are name vectors of ArpaNames.tla in UPPER / mIxEd case (so that the
+// case-folding path runs) that some decoder accepts, plus ordinary non-ARPA
+// names in mixed case (Example.COM).  Each round starts from cold caches
+// (two garbage collections empty every sync.Pool), decodes non-ARPA names
+// sequentially as a warm-up, and then releases the goroutines at once; every
+// goroutine decodes its OWN names, interleaved with non-ARPA ones, and
+// compares every result with the prediction for that call's argument.
+func stress(args []string) error {
+	if len(args) < 5 {
+		return fmt.Errorf("usage: stress <result> <goroutines> <rounds> <batch> <stress-units>...")
+	}
+	ng, _ := strconv.Atoi(args[1])
+	rounds, _ := strconv.Atoi(args[2])
+	batch, _ := strconv.Atoi(args[3])
+	if ng <= 0 || rounds <= 0 || batch <= 0 {
+		return fmt.Errorf("bad counts")
+	}
+	res, err := vh.NewResult(args[0])
+	if err != nil {
+		return err
+	}
+	const perG = 6
+	var arpa, plain []decUnit
+	seen := map[string]bool{}
+	for _, path := range args[4:] {
+		err = vh.ForEachVector(path, func(_ int, raw []byte) error {
+			var v c04.NameVec
+			if err := json.Unmarshal(raw, &v); err != nil {
+				return err
+			}
+			if !v.ASCII || !v.Dom {
+				return nil
+			}
+			s := c04.Concretise(v.Name)
+			if !hasUpperASCII(s) || seen[s] {
+				return nil
+			}
+			u := decUnit{s: s, ip: v.IP, pfx: v.Pfx, ext: v.Ext}
+			seen[s] = true
+			if v.Pfx.Ok && v.Pfx.Bits > 0 {
+				// distinct non-trivial prefixes: a mix-up is visible
+				arpa = append(arpa, u)
+			} else if !v.Pfx.Ok && !v.Ext.Ok && !v.IP.Ok {
+				plain = append(plain, u)
+			}
+			return nil
+		})
+		if err != nil {
+			return err
+		}
+	}
+	if len(arpa) < ng*perG || len(plain) < 4 {
+		return fmt.Errorf("not enough mixed-case vectors: %d ARPA, %d ordinary", len(arpa), len(plain))
+	}
+	// Spread the picks over the whole list (both families, all shapes) and
+	// keep only what conforms alone (otherwise G reports it).
+	units := make([][]decUnit, ng)
+	stride := len(arpa) / (ng * perG)
+	for i := 0; i < ng*perG; i++ {
+		u := arpa[i*stride]
+		if checkUnit(u, "sequential") == nil {
+			units[i%ng] = append(units[i%ng], u)
+		}
+	}
+	var okPlain []decUnit
+	for _, u := range plain {
+		if checkUnit(u, "sequential") == nil {
+			okPlain = append(okPlain, u)
+		}
+	}
+	plain = okPlain
+	if len(plain) == 0 {
+		return res.Close(map[string]any{"stress_calls": 0, "stress_units": 0, "goroutines": ng, "rounds": rounds})
+	}
+	fails := make([][][2]string, ng+1)
+	counts := make([]int64, ng+1)
+	for r := 0; r < rounds; r++ {
+		runtime.GC()
+		runtime.GC()
+		// history: ordinary mixed-case lookups first
+		for i := 0; i < 48; i++ {
+			counts[ng] += 3
+			if f := checkUnit(plain[i%len(plain)], "warm-up"); f != nil && len(fails[ng]) < 3 {
+				fails[ng] = append(fails[ng], *f)
+			}
+		}
+		var wg sync.WaitGroup
+		start := make(chan struct{})
+		for g := 0; g < ng; g++ {
+			if len(units[g]) == 0 {
+				continue
+			}
+			wg.Add(1)
+			go func(g int) {
+				defer wg.Done()
+				<-start
+				for it := 0; it < batch; it++ {
+					u := units[g][(it/2)%len(units[g])]
+					how := "concurrent"
+					if it%5 == 4 {
+						u = plain[(it+g)%len(plain)]
+					}
+					counts[g] += 3
+					if f := checkUnit(u, how); f != nil && len(fails[g]) < 3 {
+						fails[g] = append(fails[g], *f)
+					}
+				}
+			}(g)
+		}
+		close(start)
+		wg.Wait()
+	}
+	nu, calls := 0, int64(0)
+	for g := range fails {
+		calls += counts[g]
+		if g < ng {
+			nu += len(units[g])
+		}
+		for _, f := range fails[g] {
+			res.Mismatch(f[0], f[1], nil)
+		}
+	}
+	return res.Close(map[string]any{"stress_calls": calls, "stress_units": nu, "ordinary_names": len(plain),
+		"goroutines": ng, "rounds": rounds, "batch": batch})
 }
 
 // ------------------------------------------------------------ probe (--replay)
